@@ -29,7 +29,7 @@ memo_key_nof = partial(e4.rule_memo_key, modules=("number_ordered_form", "second
 
 # ideal DSL semantics tied to the code: shared by the algorithm-level properties
 CORE = [e1b.rule_projection_pairs, e1b.rule_scope_flags, e2c.rule_product_by_order, e2c.rule_adjoint_fill, e2c.rule_cauchy_wiring,
-        e4.rule_value_preserving, tv_shipped, e9.rule_runtime_support, e9.rule_exec_scope, start_data_shipped, e11.rule_helpers,
+        e4.rule_value_preserving, tv_shipped, e9.rule_runtime_support, e9.rule_exec_scope, e9.rule_adjoint_binding, start_data_shipped, e11.rule_helpers,
         # what the series H *is*: input normalisation of symbolic / list / dict Hamiltonians (Taylor coefficients, order keys)
         e2b.rule_taylor, e2b.rule_key_normalisation,
         # `every Hamiltonian accepted by block_diagonalize` includes implicit mode: the exact (direct) implicit solver and the
@@ -128,7 +128,7 @@ prop(
     "C07", level="other", selftest=["block_diagonalization", "second_quantization", "number_ordered_form", "algorithms"],
     rules=[main_e1, wf_main, e12.rule_operator_mode, e7.rule_solve_scalar, e1b.rule_projection_pairs, e1b.rule_scope_flags,
            e10.rule_operator_order, e10.rule_fermion_crossing, e10.rule_shift_table, e10.rule_linear_structure, e10.rule_number_operator_power,
-           e2c.rule_product_by_order, e2c.rule_cauchy_wiring, e2c.rule_adjoint_fill, tv_shipped, e9.rule_runtime_support, e9.rule_exec_scope, start_data_shipped,
+           e2c.rule_product_by_order, e2c.rule_cauchy_wiring, e2c.rule_adjoint_fill, tv_shipped, e9.rule_runtime_support, e9.rule_exec_scope, e9.rule_adjoint_binding, start_data_shipped,
            e11.rule_helpers, e4.rule_loop_carried_state, e4.rule_memo_key],
     explanation=(
         "Narrow claim: ONE clause of C07 is decided, the last one -- `the operator results also satisfy U†U = 1 and "
@@ -168,7 +168,7 @@ prop(
     "C09", level="translation_validation", selftest=["algorithm_parsing", "series"],
     rules=[e9.rule_translation, e9.rule_translation_corpus, e9.rule_runtime_support, wf_all, e2c.rule_adjoint_fill, e8.rule_implicit_wiring,
            e2c.rule_cauchy_wiring, e2c.rule_product_by_order,  # declared products and their Hermiticity shortcut
-           e9.rule_deletion_safe, e9.rule_exec_scope, e9.rule_start_data,
+           e9.rule_deletion_safe, e9.rule_exec_scope, e9.rule_adjoint_binding, e9.rule_start_data,
            # the compiled form is a function of the definition: a memo of the compiler must be keyed by what it compiles
            memo_key_parsing],
     explanation=(
@@ -266,7 +266,9 @@ prop(
         "SciPy's documented contract: _matvec/_matmat compute A x, _rmatvec/_rmatmat compute A^H x, _adjoint/_transpose return A^H / A^T",
         "the source of the installed scipy/sparse/linalg/_interface.py is what runs",
     ],
-    rules=[e6.rule_projector, e6.rule_base_state, e6.rule_projector_construction_sites],
+    rules=[e6.rule_projector, e6.rule_base_state, e6.rule_projector_construction_sites,
+           # `equals the matrix ... under every operator operation`, also inside composites: applying P must not modify the operand
+           partial(e4.rule_no_inplace_mutation, modules=("linalg",))],
     explanation=(
         "With self = P = 1 - R L† every method of ComplementProjector is interpreted abstractly: _apply denotes P v, "
         "_apply_left denotes P† v, the objects built by _adjoint / conjugate / _transpose (both L = R and L != R) "
@@ -277,7 +279,8 @@ prop(
 
 prop(
     "C18", level="other", selftest=["series"],
-    rules=[e2c.rule_product_by_order, e2c.rule_cauchy_wiring, e2c.rule_adjoint_fill, main_e1, e4.rule_value_preserving, e9.rule_runtime_support],
+    rules=[e2c.rule_product_by_order, e2c.rule_cauchy_wiring, e2c.rule_adjoint_fill, main_e1, e4.rule_value_preserving, e9.rule_runtime_support,
+           e9.rule_adjoint_binding],
     explanation=(
         "product_by_order: order box, complementary orders, index wiring (start, middle, *o1) / (middle, end, *o2), "
         "presence test dominating every load, zero-skip, multiplicity table of the Hermitian half-sum, operator "
